@@ -223,7 +223,8 @@ def gen_twin(rng, max_ops=80):
         else:
             k = rng.choice([1, 1, 2, 5])
             for _ in range(k):
-                ops += [rng.choice([4, 5, 5, 6, 6, 7, 8, 12, 14])]
+                o = rng.choice([4, 5, 5, 6, 6, 7, 8, 12, 14])
+                ops += [8, 6] if o == 6 and rng.random() < 0.5 else [o]
     ops += [4, 5, 4]
     return _assemble(wb, sb, pb, ms, kind, ws, ops)
 
@@ -503,8 +504,17 @@ def oracle_C08(inp, out):
         return "panic/abort/timeout"
     try:
         last4 = None
+        last8 = None
         fin = None
         for op, args, res in walk(inp, out):
+            # raw-binary view (6) must equal the consuming raw-binary export (8) at the same moment
+            if op == 8:
+                last8 = res
+            elif op == 6:
+                if last8 is not None and res != last8:
+                    return "get_binary view differs from into_binary at the same moment"
+            elif op in (1, 2, 3, 9, 10, 11, 13, 15):
+                last8 = None
             if op in ("twin1", "twin2") and res[0] != res[1]:
                 return "inspected coder and twin disagree on a result: %r" % (res,)
             if op == 4:
